@@ -1911,3 +1911,90 @@ def str_method(interp, s, name, args, kwargs, node=None):   # noqa: F811
                 break
         return simplify_value(SStr([tuple(p) for p in parts]))
     return _sm0(interp, s, name, args, kwargs, node)
+
+
+# ---------------------------------------------------------------------------------------------
+# NamedTuple records, structural string slices, int() of structured text, str.split on '='
+# ---------------------------------------------------------------------------------------------
+_cm3 = call_method
+IS_INT_LITERAL = z3.Function('is_int_literal', STR, BOOL)
+INT_OF_TEXT = z3.Function('int_of_text', STR, INT)
+
+
+def call_method(interp, recv, name, args, kwargs, node=None):   # noqa: F811
+    if isinstance(recv, SObj) and name == '_replace':
+        f = dict(recv.fields)
+        f.update(kwargs)
+        return SObj(recv.cls, f, label=recv.label)
+    if isinstance(recv, SObj) and name == '_asdict':
+        return dict(recv.fields)
+    if isinstance(recv, SStr) and name == 'split' and args and args[0] == '=' and kwargs.get('maxsplit', args[1] if len(args) > 1 else None) == 1:
+        ctx = interp.ctx
+        ctx.use(A('str.split', "s.split('=', maxsplit=1) returns [left, right] with s == left + '=' + right and no '=' in left, or [s] when s has no '='"))
+        has = z3.Contains(recv.e, z3.StringVal('='))
+        if not ctx.decide(has, 'split-has-equals'):
+            return [recv]
+        left, right = ctx.fresh('left', STR), ctx.fresh('right', STR)
+        ctx.assume(z3.And(recv.e == z3.Concat(left, z3.StringVal('='), right), z3.Not(z3.Contains(left, z3.StringVal('=')))))
+        return [SStr(left), SStr(right)]
+    return _cm3(interp, recv, name, args, kwargs, node)
+
+
+_gi3 = getitem
+
+
+def getitem(interp, obj, idx, node=None):      # noqa: F811
+    if isinstance(obj, SStr) and isinstance(idx, slice) and idx.start == 1 and idx.stop == -1 and idx.step is None:
+        p = [list(x) for x in obj.parts]
+        if len(p) >= 2 and p[0][0] == 'c' and p[-1][0] == 'c' and len(p[0][1]) >= 1 and len(p[-1][1]) >= 1:
+            p[0][1] = p[0][1][1:]
+            p[-1][1] = p[-1][1][:-1]
+            return simplify_value(SStr([tuple(x) for x in p]))
+        raise OutOfSubset('s[1:-1] of a string without constant first and last characters')
+    return _gi3(interp, obj, idx, node)
+
+
+_mi0 = _MODELS[int]
+
+
+def _model_int2(interp, args, kwargs, node):
+    x = args[0] if args else 0
+    if isinstance(x, SStr):
+        ctx = interp.ctx
+        ctx.use(A('python.int.str', "int(text) accepts an optional sign followed by decimal digits (value = that integer) and raises ValueError for text that is not an integer literal"))
+        p = x.parts
+        # structured text: optional constant sign, then str(m) of a non-negative integer
+        if len(p) in (1, 2) and p[-1][0] == 'i' and (len(p) == 1 or (p[0][0] == 'c' and p[0][1] in ('+', '-'))):
+            m = p[-1][1]
+            ctx.prove(m >= 0, 'int()_of_sign_and_digits:digits_are_a_non_negative_number', 'safety')
+            return simplify_value(SInt(-m if len(p) == 2 and p[0][1] == '-' else m))
+        if not ctx.decide(IS_INT_LITERAL(x.e), f'int()-of-text@L{getattr_lineno(node)}'):
+            interp.raise_(ValueError, 'int()', real_args=('invalid literal',))
+        return SInt(INT_OF_TEXT(x.e))
+    return _mi0(interp, args, kwargs, node)
+
+
+_MODELS[int] = _model_int2
+
+
+@model(filter)
+def model_filter(interp, args, kwargs, node):
+    fn, it = args
+    items = concrete_iter(interp, it)
+    if items is None:
+        raise OutOfSubset('filter over a symbolic-length iterable')
+    out = []
+    for x in items:
+        r = interp.call(fn, [x], {}, node) if fn is not None else x
+        if interp.ctx.decide(truth(r), 'filter-predicate'):
+            out.append(x)
+    return out
+
+
+@model(map)
+def model_map(interp, args, kwargs, node):
+    fn = args[0]
+    cols = [concrete_iter(interp, a) for a in args[1:]]
+    if any(c is None for c in cols):
+        raise OutOfSubset('map over a symbolic-length iterable')
+    return [interp.call(fn, list(xs), {}, node) for xs in zip(*[list(c) for c in cols])]
